@@ -594,6 +594,8 @@ func (x *Exec) arbitraryLike(a ArrayV) Value {
 	return UnknownV{nil, "out-of-range element"}
 }
 
+var globalTables = map[string]string{}
+
 // tableLookup turns a symbolic index into an all-constant scalar array into a
 // defined SMT function (shared across queries).
 func (x *Exec) tableLookup(a ArrayV, idx *Term) *Term {
@@ -614,13 +616,10 @@ func (x *Exec) tableLookup(a ArrayV, idx *Term) *Term {
 		sb.WriteByte(',')
 	}
 	key := sb.String()
-	name, ok := x.tables[key]
+	name, ok := globalTables[key]
 	if !ok {
-		name = fmt.Sprintf("tbl!%d", len(x.tables))
-		if n, ok := x.tableNames[key]; ok {
-			name = n
-		}
-		x.tables[key] = name
+		name = fmt.Sprintf("tbl!%d", len(globalTables))
+		globalTables[key] = name
 		p := Var("i", BV(64))
 		var body *Term = a.E[len(a.E)-1].(Scalar).T
 		for i := len(a.E) - 2; i >= 0; i-- {
